@@ -50,6 +50,7 @@ FIXED = [
  ("F45", "C04", "ea78a02", "the L1 block pointing to a new L2 table cluster that copy-on-write had zeroed (no dirty slice yet) was written without a sync after that zeroing: crash image whose L1 entry points to the stale content of the cluster's previous use (found once free host clusters of built images were filled with garbage)", "regress/C04/l1-block-before-settled-l2-cluster-zeroing-synced.json"),
  ("F46", "C17", "ea78a02", "same commit: a write that failed after allocating a new L2 table (zeroing failed) left the L1 entry in place; no slice of the cluster was dirty, so a later flush_meta wrote the L1 block pointing to a never-zeroed cluster - garbage L2 entries in the file after healing + flush", "regress/C17/failed-settle-leaves-l1-entry-to-unzeroed-l2-cluster.json"),
  ("F47", "C16", "b7d474b", "commit_header() rewrote the header with a request whose length (e.g. 132 bytes) and buffer address were not aligned to the block size (reached when the first write beyond a short header l1_size extends it in place; pointed out by a sub-agent, confirmed once C16 got short-L1 images)", "regress/C16/header-rewrite-unaligned.json"),
+ ("F48", "C04", "c1333bb", "a slice of a new L2 table cluster written back by a cache eviction (zero + write, no sync, clean afterwards) followed by flush_meta(): no dirty slice below the L1 block, so the block was written without a sync and a crash could keep L1 entry and slice but lose the zeroing - garbage in the rest of the L2 table (found by the thorough tier of C04, seed 1)", "regress/C04/l1-block-after-evicted-slice-of-new-l2-cluster.json"),
  ("F11", "C03", "c069255", "writing to a zero-flagged cluster with a preallocation leaked the preallocated host cluster", "regress/C03/zero-prealloc-write-leaks.json"),
 ]
 KNOWN = [
